@@ -60,3 +60,5 @@ func vBytesEqual(a, b []byte) bool {
 	}
 	return true
 }
+
+func vNop() {}
